@@ -27,10 +27,7 @@
 #include "vc.h"
 #include <math.h>
 #include <string.h>
-#include "c12_ftoa.h"
-char *g_buf;                       /* start of the text buffer */
-unsigned g_k, g_neg, g_nint, g_P;  /* ghost index; expected sign / integer digits / fraction digits (from the spec) */
-unsigned g_w;                      /* characters written so far (stepped next to the real *ptr++) */
+#include "c12_ftoa_harness.h"
 #include "igris/util/numconvert.c"
 
 void harness(void)
@@ -40,35 +37,8 @@ void harness(void)
     WIT(uint, k);        /* ghost index: arbitrary, so a statement about buf[k] is a statement about every character */
     WIT(uint, at_end);   /* alignment of the exact-size window, see C12_EXACT_BUF */
     float f = c12_f32(bits);
-    int is_nan = C12_ISNAN32(bits), is_inf = C12_ISINF32(bits);
-    int big = !is_nan && !is_inf && !C12_INRANGE32(bits); /* finite, |f| >= 2^31 */
-    __CPROVER_assume(KF_C12_f32toa_range == 0 ? 1 : KF_C12_f32toa_range == 1 ? !big : big);
-    __CPROVER_assume(KF_C12_f32toa_inf_return == 2 ? is_inf : 1);
-
-    unsigned neg = C12_NEG32(bits) && !is_nan && f != 0.0f; /* f < 0 */
-    float a = c12_f32(bits & 0x7fffffffu);                     /* |f| */
-    unsigned P = (unsigned)c12_req_prec(prec, a);
-    float g = P ? a + (float)c12_half_unit((int)P) : a;       /* the value whose integer part is printed */
-    unsigned nint = c12_int_digits(g);
-    unsigned total = is_nan ? 3u : is_inf ? 4u : neg + nint + (P ? 1u + P : 0u);
-    C12_EXACT_BUF(arr, buf, total + 1, at_end != 0);
-    __CPROVER_assume(k <= total);
-    g_buf = buf; g_k = k; g_neg = neg; g_nint = nint; g_P = P; g_w = 0;
-
-    char *r = igris_f32toa(f, buf, prec);
-
-    if (is_nan) {
-        __CPROVER_assert(buf[0] == 'n' && buf[1] == 'a' && buf[2] == 'n' && buf[3] == 0, "f32toa: NaN renders as the token nan");
-        __CPROVER_assert(r == buf, "f32toa(NaN): returns the start of the text");
-    } else if (is_inf) {
-        __CPROVER_assert(buf[0] == (C12_NEG32(bits) ? '-' : '+') && buf[1] == 'i' && buf[2] == 'n' && buf[3] == 'f' && buf[4] == 0,
-                         "f32toa: infinity renders as the token inf with the sign of the argument");
-        if (KF_C12_f32toa_inf_return != 1)
-            __CPROVER_assert(r == buf, "f32toa(+-inf): returns the start of the text like every other path");
-    } else {
-        __CPROVER_assert(c12_char_ok(buf[k], k, neg, nint, P),
-                         "f32toa: text is -?[0-9]+(.[0-9]{P})? with exactly the requested fraction digits, NUL terminated");
-        __CPROVER_assert(r == buf, "f32toa: returns the start of the text");
-    }
-    CANARY("f32toa harness end reachable");
+    int big = C12_EXP32(bits) != 0xffu && !C12_INRANGE32(bits); /* finite, |f| >= 2^31 */
+    C12_RANGE_REGION(big);
+#define FTOA_CALL(b, p) igris_f32toa(f, b, p)
+    C12_FTOA_CHECK(bits, big, prec, k, at_end, "f32toa");
 }
